@@ -88,15 +88,14 @@ theorem connect_forest {reg : Registry} {vt : VarTable} {l : List (VRef × VRef)
 
 /-! ## 2. Order independence -/
 
-/-- Swapping (component_1, variable_1) with (component_2, variable_2) does not change the direction, provided the
-    connection is one the CellML interface rules allow: siblings with exactly one `public_interface="out"`, or a
-    parent and its child (not each other's parent). -/
+/-- Swapping (component_1, variable_1) with (component_2, variable_2) does not change the direction — nor whether the
+    connection is refused — for ANY two declared variables, whatever their interfaces and wherever the components sit
+    (after the two C17 repairs of `_determine_connection_direction`; before them this needed the hypothesis that the
+    connection obeys the interface rules). The one hypothesis left excludes two components that are each other's parent,
+    which `_add_relationships` does not refuse. -/
 theorem direction_swap (par : ParentMap) (vt : VarTable) (c : Conn) (i1 i2 : VarInfo)
     (h1 : vt.lookup c.end1 = some i1) (h2 : vt.lookup c.end2 = some i2)
-    (hsib : par.lookup c.c1 = par.lookup c.c2 → ((i1.pub = .out) ↔ ¬ (i2.pub = .out)))
-    (hpc : par.lookup c.c1 ≠ par.lookup c.c2 →
-      (par.lookup c.c2 = some c.c1 ∧ par.lookup c.c1 ≠ some c.c2) ∨
-      (par.lookup c.c1 = some c.c2 ∧ par.lookup c.c2 ≠ some c.c1)) :
+    (hmut : ¬ (par.lookup c.c2 = some c.c1 ∧ par.lookup c.c1 = some c.c2)) :
     direction par vt c.swap = direction par vt c := by
   have e1 : c.swap.end1 = c.end2 := rfl
   have e2 : c.swap.end2 = c.end1 := rfl
@@ -108,24 +107,22 @@ theorem direction_swap (par : ParentMap) (vt : VarTable) (c : Conn) (i1 i2 : Var
   by_cases hs : par.lookup c.c1 = par.lookup c.c2
   · have hs' : par.lookup c.c2 = par.lookup c.c1 := hs.symm
     rw [if_pos hs, if_pos hs']
-    by_cases ho : i1.pub = .out
-    · have := (hsib hs).mp ho
-      rw [if_pos ho, if_neg this]
-    · have : i2.pub = .out := Classical.byContradiction (fun hn => ho ((hsib hs).mpr hn))
-      rw [if_neg ho, if_pos this]
+    cases hp1 : i1.pub <;> cases hp2 : i2.pub <;> simp
   · have hs' : ¬ par.lookup c.c2 = par.lookup c.c1 := fun e => hs e.symm
     rw [if_neg hs, if_neg hs']
-    rcases hpc hs with ⟨ha, hb⟩ | ⟨ha, hb⟩
-    · rw [if_pos ha, if_neg hb]
-    · rw [if_neg hb, if_pos ha]
+    by_cases hP : par.lookup c.c2 = some c.c1
+    · have hQ : ¬ par.lookup c.c1 = some c.c2 := fun q => hmut ⟨hP, q⟩
+      simp only [if_pos hP, if_neg hQ]
+    · by_cases hQ : par.lookup c.c1 = some c.c2
+      · simp only [if_neg hP, if_pos hQ]
+      · simp only [if_neg hP, if_neg hQ]
 
-/-- Without that hypothesis the direction DOES depend on the attribute order: a grandparent's private `out` variable
-    and a grandchild's public `in` variable (not adjacent in the encapsulation hierarchy) are connected in one order
-    and refused in the other. (Such a document violates the CellML connection rules; relevant to C17.) -/
-theorem direction_swap_needs_adjacency :
+/-- The document that used to be connected in one attribute order only — a grandparent's private `out` variable and a
+    grandchild's public `in` variable, not adjacent in the encapsulation hierarchy — is now refused in both (C17). -/
+theorem direction_nonadjacent_refused :
     let par : ParentMap := [("C", "P"), ("P", "G")]
     let vt : VarTable := [(("G", "x"), ⟨[], .none, .out, none, none, ""⟩), (("C", "x"), ⟨[], .inn, .none, none, none, ""⟩)]
-    direction par vt ⟨"C", "x", "G", "x"⟩ = .ok (("G", "x"), ("C", "x")) ∧
+    direction par vt ⟨"C", "x", "G", "x"⟩ = .error (.valueError "Cannot determine the source & target for connection") ∧
     direction par vt ⟨"G", "x", "C", "x"⟩ = .error (.valueError "Cannot determine the source & target for connection") := by
   decide
 
@@ -164,14 +161,11 @@ theorem connect_perm {reg : Registry} {vt : VarTable} {l l' : List (VRef × VRef
     ∀ v, rootOf st v = rootOf st' v :=
   connect_perm_root (fun _ => hp.mem_iff) h h'
 
-/-- the hypotheses of `direction_swap` for one connection: both variables exist, and the two components are siblings
-    with exactly one public `out`, or parent and child -/
+/-- the hypotheses of `direction_swap` for one connection: both variables exist, and the two components are not each
+    other's parent -/
 def SwapOK (par : ParentMap) (vt : VarTable) (c : Conn) : Prop :=
   ∃ i1 i2, vt.lookup c.end1 = some i1 ∧ vt.lookup c.end2 = some i2 ∧
-    (par.lookup c.c1 = par.lookup c.c2 → ((i1.pub = .out) ↔ ¬ (i2.pub = .out))) ∧
-    (par.lookup c.c1 ≠ par.lookup c.c2 →
-      (par.lookup c.c2 = some c.c1 ∧ par.lookup c.c1 ≠ some c.c2) ∨
-      (par.lookup c.c1 = some c.c2 ∧ par.lookup c.c2 ≠ some c.c1))
+    ¬ (par.lookup c.c2 = some c.c1 ∧ par.lookup c.c1 = some c.c2)
 
 /-- Writing any subset of the connections of a document the other way round (component_1 ↔ component_2 together with
     variable_1 ↔ variable_2) gives the same list of directed connections, hence the same model. -/
@@ -195,8 +189,8 @@ theorem directAll_swap (comps : List String) (par : ParentMap) (vt : VarTable) (
             · rename_i ds hds
               simp only [Except.ok.injEq] at h; subst h
               have ih := directAll_swap comps par vt flip ks ds (fun k' hk' => hok k' (List.mem_cons_of_mem _ hk')) hds
-              obtain ⟨i1, i2, h1, h2, hsib, hpc⟩ := hok k List.mem_cons_self
-              have hsw := direction_swap par vt k i1 i2 h1 h2 hsib hpc
+              obtain ⟨i1, i2, h1, h2, hmut⟩ := hok k List.mem_cons_self
+              have hsw := direction_swap par vt k i1 i2 h1 h2 hmut
               simp only [List.map_cons]
               unfold directAll
               cases hf : flip k with
